@@ -151,9 +151,14 @@ Definition rec_in_ref (ref : iref) (R : irec) : Prop :=
   /\ prefix_le (q_cb R) (Z.to_nat (etile R + 1)) (rintv ref).
 
 Definition ref_bounded (lend : Z) (ref : iref) : Prop :=
-  (forall b c, In b (rbins ref) -> In c (bchunks b) -> snd c <= lend) /\
+  (forall b c, In b (rbins ref) -> In c (bchunks b) -> fst c <= lend /\ snd c <= lend) /\
   (forall x, In x (rintv ref) -> 0 <= x <= lend) /\
   NoDup (map bnum (rbins ref)).
+
+(** The order [Index.sort] leaves a reference in. *)
+Definition ref_sorted (ref : iref) : Prop :=
+  key_sorted bnum (rbins ref) /\ Forall (fun b => key_sorted fst (bchunks b)) (rbins ref) /\
+  key_sorted (fun x => x) (rintv ref).
 
 Definition rec_shape (R : irec) : Prop :=
   q_placed R = true /\ 0 <= q_start R < q_end R /\ q_end R <= ix_bai_limit + 1 /\ q_cb R < q_ce R.
@@ -163,7 +168,7 @@ Record Inv (ix : index) (seen : list irec) (lrid lstart lend : Z) : Prop := mkIn
   inv_lrid : -1 <= lrid;
   inv_lend : 0 <= lend;
   inv_last : ilast ix <= lstart;
-  inv_unsorted : isorted ix = false;
+  inv_sorted : isorted ix = true -> Forall ref_sorted (irefs ix);
   inv_refs : Forall (ref_bounded lend) (irefs ix);
   inv_seen : forall R, In R seen ->
       0 <= q_rid R <= lrid /\ rec_shape R /\
@@ -180,8 +185,35 @@ Proof.
   - intros x Hx. specialize (B x Hx). lia.
 Qed.
 
+Lemma ref_sorted_empty : ref_sorted ix_empty_ref.
+Proof. repeat split; constructor. Qed.
+
+Lemma key_sorted_snoc (cs : list chunk) c :
+  key_sorted fst cs -> (forall ch, In ch cs -> fst ch <= fst c) -> key_sorted fst (cs ++ [c]).
+Proof.
+  unfold key_sorted. induction cs as [|h t IH]; intros Hs Hb; simpl; [constructor; constructor|].
+  inversion Hs as [|? ? Hst Hall]; subst. constructor.
+  - apply IH; [exact Hst|]. intros ch Hc. apply Hb. right; exact Hc.
+  - apply Forall_app. split; [exact Hall|]. constructor; [|constructor]. apply Hb. left; reflexivity.
+Qed.
+
+Lemma upd_bins_chunks_sorted lend bs b c bs' :
+  (forall x ch, In x bs -> In ch (bchunks x) -> fst ch <= lend /\ snd ch <= lend) -> lend <= fst c ->
+  Forall (fun b => key_sorted fst (bchunks b)) bs -> ix_upd_bins bs b c = Some bs' ->
+  Forall (fun b => key_sorted fst (bchunks b)) bs'.
+Proof.
+  revert bs'. induction bs as [|x t IH]; intros bs' Hb Hl Hs H; simpl in H; [discriminate|].
+  inversion Hs as [|? ? Hx Ht]; subst. destruct (bnum x =? b).
+  - inversion H; subst. constructor; [|exact Ht]. simpl.
+    rewrite ix_upd_chunks_append.
+    + apply key_sorted_snoc; [exact Hx|]. intros ch Hc. destruct (Hb x ch (or_introl eq_refl) Hc). lia.
+    + intros ch Hc. destruct (Hb x ch (or_introl eq_refl) Hc). lia.
+  - destruct (ix_upd_bins t b c) eqn:E; [|discriminate]. inversion H; subst. constructor; [exact Hx|].
+    apply (IH l); auto. intros y ch Hy. apply Hb. right; exact Hy.
+Qed.
+
 Lemma Inv_init : Inv ix_empty [] (-1) 0 0.
-Proof. constructor; simpl; try lia; try reflexivity; try (intros ? []); constructor. Qed.
+Proof. constructor; simpl; try lia; try reflexivity; try (intros ? []); try discriminate; constructor. Qed.
 
 Lemma Forall_upd_nat {A} (P : A -> Prop) l i x : Forall P l -> P x -> Forall P (upd_nat l i x).
 Proof.
@@ -206,6 +238,22 @@ Proof.
     + apply nth_overflow. rewrite repeat_length. exact H2.
 Qed.
 
+Lemma ix_upd_bins_nums bs b c bs' : ix_upd_bins bs b c = Some bs' -> map bnum bs' = map bnum bs.
+Proof.
+  revert bs'. induction bs as [|x t IH]; intros bs' H; simpl in H; [discriminate|].
+  destruct (bnum x =? b); [inversion H; reflexivity|].
+  destruct (ix_upd_bins t b c) eqn:E; [|discriminate]. inversion H; subst. simpl. f_equal. apply IH. reflexivity.
+Qed.
+
+Lemma key_sorted_nums (a b : list ibin) : map bnum a = map bnum b -> key_sorted bnum a -> key_sorted bnum b.
+Proof.
+  unfold key_sorted. revert b. induction a as [|x t IH]; intros [|y u] E H; simpl in E; try discriminate; [constructor|].
+  inversion E. inversion H as [|? ? Hs Hall]; subst. constructor; [apply IH; assumption|].
+  apply Forall_forall. intros z Hz. rewrite Forall_forall in Hall.
+  assert (In (bnum z) (map bnum t)) by (rewrite H2; apply in_map; exact Hz).
+  apply in_map_iff in H0. destruct H0 as (z0 & Hz0 & Hin). specialize (Hall z0 Hin). lia.
+Qed.
+
 Lemma add_placed_inv ix seen lrid lstart lend r :
   Inv ix seen lrid lstart lend -> q_placed r = true ->
   0 <= q_rid r -> lrid <= q_rid r -> (q_rid r = lrid -> lstart <= q_start r) ->
@@ -213,7 +261,7 @@ Lemma add_placed_inv ix seen lrid lstart lend r :
   exists ix', ix_add ix r = Ok ix' /\ Inv ix' (r :: seen) (q_rid r) (q_start r) (q_ce r).
 Proof.
   intros I Hp Hrid0 Hrid Hst Hse Hlim Hc.
-  destruct I as [Ilen Ilrid Ilend Ilast Iuns Irefs Iseen].
+  destruct I as [Ilen Ilrid Ilend Ilast Isrt Irefs Iseen].
   unfold ix_add.
   assert (V1 : ix_valid_pos (q_start r) = true) by (apply valid_pos_iff; lia).
   assert (V2 : ix_valid_pos (q_end r - 1) = true) by (apply valid_pos_iff; lia).
@@ -240,32 +288,48 @@ Proof.
   { unfold ref. rewrite Forall_forall in Hrefs_b. apply Hrefs_b. apply nth_In. unfold zlen in Hrefs_len. lia. }
   destruct Hrefb as (RB1 & RB2 & RB3).
   set (c := (q_cb r, q_ce r)).
-  pose proof (filed_spec (rbins ref) (q_bin r) c lend RB1 (proj1 Hc) RB3) as (F1 & F2 & F3 & F4).
+  pose proof (filed_spec (rbins ref) (q_bin r) c lend (fun x ch a b => proj2 (RB1 x ch a b)) (proj1 Hc) RB3) as (F1 & F2 & F3 & F4).
   assert (Hlast : (q_start r <? last) = false).
   { apply Z.ltb_ge. unfold last. destruct (rid >=? zlen (irefs ix)) eqn:E; [lia|].
     assert (rid = lrid) by lia. specialize (Hst H). lia. }
   destruct (ix_linear_ok (rintv ref) (q_start r) (q_end r) (q_cb r) Hse) as (tail & L1 & L2 & L3).
-  assert (Hgoal : forall bins sorted, bins = filed (rbins ref) (q_bin r) c -> sorted = false ->
+  assert (Hgoal : forall bins sorted, bins = filed (rbins ref) (q_bin r) c ->
+     (sorted = true -> isorted ix = true /\ ix_upd_bins (rbins ref) (q_bin r) c = Some bins) ->
      exists ix', (if q_start r <? last then Err 3 else
         obind (ix_linear (rintv ref) (q_start r) (q_end r) (q_cb r)) (fun intv =>
+          let sorted := if zlen intv >? zlen (rintv ref) then false else sorted in
           Ok (mkIdx (upd_nat refs (Z.to_nat rid) (mkRef bins (Some (ix_upd_stats (rstats ref) c (q_mapped r))) intv))
                     (Some match iunm ix with Some u => u | None => 0 end) sorted (q_start r)))) = Ok ix'
      /\ Inv ix' (r :: seen) rid (q_start r) (q_ce r)).
-  { intros bins sorted -> ->. rewrite Hlast, L1. simpl. eexists. split; [reflexivity|].
+  { intros bins sorted -> Hsorted. rewrite Hlast, L1. cbn [obind]. cbv zeta. eexists. split; [reflexivity|].
     set (ref' := mkRef (filed (rbins ref) (q_bin r) c) (Some (ix_upd_stats (rstats ref) c (q_mapped r))) (rintv ref ++ tail)).
     assert (Hb' : ref_bounded (q_ce r) ref').
-    { repeat split; simpl.
-      - intros b ch Hb Hch. destruct (F4 b ch Hb Hch) as [->|(x & Hx & Hxc)]; [simpl; lia|].
+    { split; [|split]; simpl.
+      - intros b0 ch Hb0 Hch. destruct (F4 b0 ch Hb0 Hch) as [->|(x & Hx & Hxc)]; [simpl; lia|].
         specialize (RB1 x ch Hx Hxc). lia.
-      - apply in_app_or in H. destruct H as [H|H]; [specialize (RB2 x H); lia|]. destruct (L2 x H); lia.
-      - apply in_app_or in H. destruct H as [H|H]; [specialize (RB2 x H); lia|]. destruct (L2 x H); lia.
+      - intros x Hx. apply in_app_or in Hx. destruct Hx as [Hx|Hx]; [specialize (RB2 x Hx); lia|]. destruct (L2 x Hx); lia.
       - exact F1. }
     constructor; simpl.
     - unfold zlen. rewrite length_upd_nat. exact Hrefs_len.
     - lia.
     - lia.
     - lia.
-    - reflexivity.
+    - intros Et. destruct (zlen (rintv ref ++ tail) >? zlen (rintv ref)) eqn:Eg; [discriminate|].
+      assert (Etail : tail = []).
+      { rewrite Z.gtb_ltb in Eg. apply Z.ltb_ge in Eg.
+        destruct tail; [reflexivity|]. rewrite zlen_app in Eg. unfold zlen in Eg. simpl length in Eg. lia. }
+      destruct (Hsorted Et) as (Eix & Eupd). specialize (Isrt Eix).
+      assert (Hrs : Forall ref_sorted refs).
+      { unfold refs. destruct (rid >=? zlen (irefs ix)); [|exact Isrt].
+        unfold ix_grow_refs. apply Forall_app. split; [exact Isrt|].
+        apply Forall_forall. intros x Hx. apply repeat_spec in Hx. subst. apply ref_sorted_empty. }
+      apply Forall_upd_nat; [exact Hrs|].
+      assert (Href : ref_sorted ref).
+      { rewrite Forall_forall in Hrs. apply Hrs. apply nth_In. unfold zlen in Hrefs_len. lia. }
+      destruct Href as (S1 & S2 & S3). unfold ref'. split; [|split]; simpl.
+      + apply (key_sorted_nums (rbins ref)); [symmetry; apply (ix_upd_bins_nums _ _ _ _ Eupd)|exact S1].
+      + apply (upd_bins_chunks_sorted lend (rbins ref) (q_bin r) c _ RB1); try assumption. exact (proj1 Hc).
+      + rewrite Etail, app_nil_r. exact S3.
     - apply Forall_upd_nat; [|exact Hb'].
       eapply Forall_impl; [|exact Hrefs_b]. intros a Ha. eapply ref_bounded_mono; [|exact Ha]. lia.
     - intros R [<-|HR].
@@ -293,8 +357,9 @@ Proof.
           -- intros i Hi. rewrite app_nth1; [apply C3; exact Hi|]. unfold zlen in C2. lia.
         * rewrite nth_upd_nat_other by lia. rewrite Hnth. exact C. }
   destruct (ix_upd_bins (rbins ref) (q_bin r) c) as [bs|] eqn:Eb; cbv beta iota zeta.
-  - refine (Hgoal bs (isorted ix) _ Iuns). unfold filed; rewrite Eb; reflexivity.
-  - refine (Hgoal _ false _ eq_refl). unfold filed; rewrite Eb; reflexivity.
+  - refine (Hgoal bs (isorted ix) _ _); [unfold filed; rewrite Eb; reflexivity|].
+    intros Et. split; [exact Et|reflexivity].
+  - refine (Hgoal _ false _ _); [unfold filed; rewrite Eb; reflexivity|discriminate].
 Qed.
 
 Lemma add_unplaced_inv ix seen lrid lstart lend r :
@@ -343,7 +408,7 @@ Record QInv (ix : index) (seen : list irec) : Prop := mkQInv {
 Lemma Inv_QInv ix seen a b c : Inv ix seen a b c -> QInv ix seen.
 Proof.
   intros I. destruct I. constructor.
-  - rewrite inv_unsorted0. discriminate.
+  - intros E. eapply Forall_impl; [|exact (inv_sorted0 E)]. intros r (H & _). exact H.
   - eapply Forall_impl; [|exact inv_refs0]. intros r (_ & _ & H). exact H.
   - intros R HR. destruct (inv_seen0 R HR) as (A & B & C). split; [lia|]. split; assumption.
 Qed.
@@ -469,7 +534,11 @@ Section Query.
     intros Q HR Hbin Ho Hq Hq2. unfold ix_chunks.
     destruct (q_seen _ _ Q R HR) as (A & _ & _). destruct Ho as (Op & Orid & O12). subst rid.
     destruct (q_rid R <? 0) eqn:E1; [apply Z.ltb_lt in E1; lia|].
-    destruct (q_rid R >=? zlen (irefs ix)) eqn:E2; [lia|]. simpl.
+    destruct (q_rid R >=? zlen (irefs ix)) eqn:E2; [lia|]. cbn [orb].
+    destruct (beg <? 0) eqn:E3; [lia|]. destruct (end_ <? beg) eqn:E4; [lia|]. cbn [orb fst].
+    assert (Ec : ix_clip_end end_ = end_).
+    { unfold ix_clip_end. change (2 ^ internal_indexWordBits) with (2 ^ 29). destruct (end_ >? 2 ^ 29) eqn:E5; [lia|reflexivity]. }
+    rewrite Ec.
     destruct (QInv_sort _ _ Q) as (Q' & Es).
     eapply query_sorted; eauto. repeat split; tauto.
   Qed.
@@ -514,7 +583,8 @@ Section Query.
       intros R HR Hp. apply S. right. split; assumption.
     - destruct IH as (seen & Q & S). exists seen. split; [apply QInv_sort; exact Q|exact S].
     - destruct IH as (seen & Q & S). exists seen. split; [|exact S]. unfold ix_chunks.
-      destruct ((rid <? 0) || (rid >=? zlen (irefs ix))); simpl; [exact Q|apply QInv_sort; exact Q].
+      destruct ((rid <? 0) || (rid >=? zlen (irefs ix))); simpl; [exact Q|].
+      destruct ((beg <? 0) || (end_ <? beg)); simpl; [exact Q|apply QInv_sort; exact Q].
     - destruct IH as (seen & Q & S). exists seen. split; [apply QInv_merge; assumption|exact S].
   Qed.
 
